@@ -149,6 +149,14 @@ def run(prog: Program, col: Collector, tier: str, refs: Optional[Refs] = None, c
     col.rule("R04.10", "the key that was substituted is not an input of the result: a rebuilt term is named by the value, not by the old key", floor=3)
     _key_leaves_inputs(prog, col, refs, cat)
 
+    # ---------------------------------------------------------------- R04.11
+    col.rule("R04.11", "fusing f(S1)(S2): every outer pair is kept and every inner value receives the whole outer substitution", floor=2)
+    _fusion(prog, col, refs, cat)
+
+    # ---------------------------------------------------------------- R04.12
+    col.rule("R04.12", "blocks that are multiplied together in an eager_subs are concatenated over the same sequence of names", floor=1)
+    _co_indexed_blocks(prog, col, refs, cat, colls)
+
     # ---------------------------------------------------------------- R04.3
     col.rule("R04.3", "Subs declares f's unsubstituted inputs plus the inputs of the substituted values", floor=3)
     si = require_func(prog, "funsor.terms::Subs.__init__")
@@ -680,3 +688,105 @@ def _key_leaves_inputs(prog: Program, col: Collector, refs: Refs, cat: Catalogue
         else:
             col.ok(construct, f"no result is rebuilt under the substituted key `{selfn}.{field}`", f.loc())
     col.cur.analysed["single_key_eager_subs"] = n
+
+
+# ---------------------------------------------------------------------- R04.11
+def _fusion(prog: Program, col: Collector, refs: Refs, cat: Catalogue):
+    """f(S1)(S2) = f(S2 + {k: v(S2) for (k, v) in S1}): the outer pairs act on f's remaining inputs AND inside every inner value.
+    A fusion rule that filters the outer pairs by anything but "is an input of the argument" (e.g. by what the inner values
+    mention, or by what f mentions) drops one of the two actions for names that need both."""
+    n = 0
+    seen = set()
+    for r in cat.registrations:
+        f = r.target
+        if f is None or len(r.pattern) < 2 or isinstance(f.node, ast.Lambda) or f.fq in seen:
+            continue
+        if refs.resolve(r.pattern[0]) != "funsor.terms.Subs" or refs.resolve(r.pattern[1]) != "funsor.terms.Subs" or len(f.positional) < 2:
+            continue
+        seen.add(f.fq)
+        n += 1
+        argn, outer = f.positional[0], f.positional[1]
+        whole = {outer}
+
+        def is_std_filter(c, key):
+            return isinstance(c, ast.Compare) and len(c.ops) == 1 and isinstance(c.ops[0], ast.In) and isinstance(c.left, ast.Name) and c.left.id == key \
+                and norm(c.comparators[0]) in (f"{argn}.inputs", f"{argn}.input_vars")
+
+        bad = []
+        for _ in range(3):
+            for st in walk_no_nested(f.node):
+                comps = [x for x in ast.walk(st) if isinstance(x, (ast.GeneratorExp, ast.ListComp, ast.DictComp, ast.SetComp))]
+                for cp in comps:
+                    g = cp.generators[0]
+                    it = g.iter
+                    base = it.func.value if isinstance(it, ast.Call) and isinstance(it.func, ast.Attribute) and it.func.attr == "items" else it
+                    if not (isinstance(base, ast.Name) and base.id in whole):
+                        continue
+                    key = g.target.elts[0].id if isinstance(g.target, ast.Tuple) and g.target.elts and isinstance(g.target.elts[0], ast.Name) else None
+                    nonstd = [c for c in g.ifs if not is_std_filter(c, key)]
+                    if nonstd:
+                        if (cp, nonstd[0]) not in bad:
+                            bad.append((cp, nonstd[0]))
+                    elif isinstance(st, ast.Assign) and len(st.targets) == 1 and isinstance(st.targets[0], ast.Name):
+                        v = st.value
+                        inner = v.args[0] if isinstance(v, ast.Call) and isinstance(v.func, ast.Name) and v.func.id in ("tuple", "list", "OrderedDict", "dict") and v.args else v
+                        if inner is cp and isinstance(getattr(cp, "elt", None), ast.Tuple) and len(cp.elt.elts) == 2 \
+                                and isinstance(g.target, ast.Tuple) and [norm(e) for e in cp.elt.elts] == [norm(e) for e in g.target.elts]:
+                            whole.add(st.targets[0].id)   # an unfiltered / standard-filtered copy of the outer pairs
+        # every inner value is wrapped with the WHOLE outer substitution
+        wraps = [c for c in ast.walk(f.node) if isinstance(c, ast.Call) and refs.resolve(c.func) == "funsor.terms.Subs" and len(c.args) == 2
+                 and isinstance(f.module.parent.get(c), ast.Tuple)]
+        bad_wrap = [c for c in wraps if not (isinstance(c.args[1], ast.Name) and c.args[1].id in whole)]
+        construct = f"{f.fq}::fusion"
+        if bad:
+            cp, cond = bad[0]
+            col.violation(construct, f"the outer pairs are filtered by `{norm(cond)}` before being fused: a name that is both an input of the inner argument and mentioned by an "
+                          "inner value needs the outer pair in both places, so one of the two is lost (the fused term differs from substituting twice)", f.loc(cp))
+        elif bad_wrap:
+            col.violation(construct, f"an inner value is wrapped as `{norm(bad_wrap[0])[:60]}`: it does not receive the whole outer substitution", f.loc(bad_wrap[0]))
+        elif not wraps:
+            col.unresolved(construct, "no `(k, Subs(v, <outer>))` pair found in the fusion rule", f.loc())
+        else:
+            col.ok(construct, f"outer pairs kept whole (`{', '.join(sorted(whole))}`), every inner value wrapped with them", f.loc())
+    col.cur.analysed["fusion_rules"] = n
+
+
+# ---------------------------------------------------------------------- R04.12
+def _co_indexed_blocks(prog: Program, col: Collector, refs: Refs, cat: Catalogue, colls: Dict[str, Set[str]]):
+    """In the substitution kernels of Gaussian the substituted values and the matching rows of the precision factor are gathered
+    into two arrays by concatenation and then multiplied.  Position p of one array meets position p of the other, so both must be
+    gathered by iterating the same sequence with the same filter; gathering one of them in another order (e.g. the order in
+    which the caller wrote the pairs) pairs each value with another variable's block."""
+    n = 0
+    for fq in sorted(colls):
+        f = prog.funcs[fq]
+        cats = {}
+        for st in walk_no_nested(f.node):
+            if isinstance(st, ast.Assign) and len(st.targets) == 1 and isinstance(st.targets[0], ast.Name) and isinstance(st.value, ast.Call):
+                o = cat.resolve_op(f.module, st.value.func) if isinstance(st.value.func, (ast.Name, ast.Attribute)) else None
+                if o is not None and o.name == "cat" and st.value.args:
+                    seq = st.value.args[0]
+                    if isinstance(seq, (ast.ListComp, ast.GeneratorExp)) and len(seq.generators) == 1:
+                        g = seq.generators[0]
+                        sig = ("comp", norm(g.iter), tuple(sorted(norm(c) for c in g.ifs)))
+                    else:
+                        sig = ("other", norm(seq), ())
+                    cats.setdefault(st.targets[0].id, []).append((sig, st))
+        cats = {k: v[0] for k, v in cats.items() if len(v) == 1}
+        if len(cats) < 2:
+            continue
+        for c in walk_no_nested(f.node):
+            pair = None
+            if isinstance(c, ast.Call) and len(c.args) == 2 and all(isinstance(a, ast.Name) and a.id in cats for a in c.args):
+                pair = (c.args[0].id, c.args[1].id)
+            elif isinstance(c, ast.BinOp) and isinstance(c.op, ast.MatMult) and all(isinstance(a, ast.Name) and a.id in cats for a in (c.left, c.right)):
+                pair = (c.left.id, c.right.id)
+            if pair is None or pair[0] == pair[1]:
+                continue
+            n += 1
+            (s1, st1), (s2, st2) = cats[pair[0]], cats[pair[1]]
+            col.check(s1 == s2, f"{f.fq}::{pair[0]} x {pair[1]}", f"both blocks are gathered over `{s1[1]}`" + (f" if {' and '.join(s1[2])}" if s1[2] else ""),
+                      f"`{pair[0]}` is gathered over `{s1[1]}`{' if ' + ' and '.join(s1[2]) if s1[2] else ''} but `{pair[1]}` over `{s2[1]}`{' if ' + ' and '.join(s2[2]) if s2[2] else ''}: "
+                      "the two arrays are multiplied position by position, so a value meets the block of another variable whenever the two orders differ "
+                      "(e.g. the caller wrote the pairs in another order than the term's inputs)", f.loc(st1))
+    col.cur.analysed["co_indexed_block_pairs"] = n
